@@ -140,7 +140,7 @@ class Config:
         self.data_values = sorted(c for c in self.value_classes
                                   if c not in self.func_classes and not c.startswith("ValueControl"))
         self.control_values = sorted(c for c in self.value_classes if c.startswith("ValueControl"))
-        self.any_value = frozenset(self.data_values) | {"ValueFunc"}
+        self.any_value = frozenset(self.data_values) | {"ValueFunc", "FuncLambda"}
         self.any_result = self.any_value | frozenset(self.control_values)
         # isX table from the class bodies: which predicate methods a class overrides to `return True`
         self.is_true = {}         # predicate -> set(class names)
@@ -175,13 +175,13 @@ class Config:
         # asX table: which class a conversion yields (from the method name)
         self.as_map = {"asString": "ValueString", "asInt": "ValueInt", "asDecimal": "ValueDecimal",
                        "asBoolean": "ValueBoolean", "asPattern": "ValuePattern", "asDate": "ValueDate",
-                       "asList": "ValueList", "asSet": "ValueSet", "asMap": "ValueMap", "asFunc": "ValueFunc",
+                       "asList": "ValueList", "asSet": "ValueSet", "asMap": "ValueMap", "asFunc": "ValueFunc+",
                        "asInput": "ValueInput", "asOutput": "ValueOutput", "asNull": "ValueNull",
                        "asNode": "ValueNode", "asObject": "ValueObject", "asBreak": "ValueControlBreak",
                        "asContinue": "ValueControlContinue", "asReturn": "ValueControlReturn"}
         self.getters = {"getString": "ValueString", "getBoolean": "ValueBoolean", "getInt": "ValueInt",
                         "getDecimal": "ValueDecimal", "getList": "ValueList", "getMap": "ValueMap",
-                        "getInput": "ValueInput", "getOutput": "ValueOutput", "getFunc": "ValueFunc",
+                        "getInput": "ValueInput", "getOutput": "ValueOutput", "getFunc": "ValueFunc+",
                         "getDate": "ValueDate"}
         self.getters_multi = {"getNumerical": {"ValueInt", "ValueDecimal"}}
         self.getas = {"getAs" + k[2:]: v for k, v in self.as_map.items()}
@@ -201,15 +201,17 @@ class Config:
     def canon(self, cname):
         if cname in self.func_classes and cname != "FuncLambda":
             return "ValueFunc"
-        if cname == "FuncLambda":
-            return "ValueFunc"
         return cname
 
     def is_value(self, t):
-        return t in self.any_result or t == "ValueFunc"
+        return t in self.any_result or t == "ValueFunc" or t in self.func_classes
 
     def anyvalue(self, prog=True, control=False):
         return AV(self.any_result if control else self.any_value, flags={"prog"} if prog else ())
+
+
+def expand(t):
+    return {"ValueFunc", "FuncLambda"} if t == "ValueFunc+" else {t}
 
 
 def path_of(e):
@@ -322,6 +324,9 @@ class Interp:
                     fl.add("progpayload")
                 if "fresh" in base.flags:
                     fl.add("fresh")
+                    # a container built in this function: its elements are what was put in, not arbitrary
+                    if out.elem is not None:
+                        out = out.with_(elem=None, keyelem=None)
                 else:
                     fl.discard("fresh")
                 return out.with_(alias=al, flags=frozenset(fl))
@@ -358,9 +363,19 @@ class Interp:
     def ev_BinOp(self, e, env):
         l, r = self.ev(e.left, env), self.ev(e.right, env)
         self.event("binop", e, (l, r, type(e.op).__name__), env)
-        if l.types is None or r.types is None:
+        def unk(v):
+            return v.types is None or any(t.startswith(("PARAM:", "SELF", "?")) for t in v.types)
+
+        if unk(l) or unk(r):
             if isinstance(e.op, ast.Div):
                 return FLOAT
+            # str + x / x + str either raises or yields a string; same for lists
+            if isinstance(e.op, ast.Add):
+                for a in (l, r):
+                    if not unk(a) and a.types <= {"str"}:
+                        return STR
+                    if not unk(a) and a.types <= {"list"}:
+                        return AV({"list"}, flags={"fresh"})
             return TOP
         num = {"int", "float", "bool"}
         if isinstance(e.op, ast.Div) and l.types <= num and r.types <= num:
@@ -870,6 +885,8 @@ class Interp:
 
 
 # ======================================================================================================
+import datetime as _dt
+HOST_PYTYPES = {"str": str, "list": list, "dict": dict, "set": set, "tuple": tuple, "datetime": _dt.datetime}
 STR_METHODS_STR = {"lower", "upper", "strip", "lstrip", "rstrip", "replace", "join", "format", "title",
                    "capitalize", "zfill", "ljust", "rjust", "center", "swapcase", "expandtabs", "casefold"}
 STR_METHODS_INT = {"find", "rfind", "index", "rindex", "count"}
@@ -900,12 +917,14 @@ class Engine:
                       "datetime": {"datetime"}}
         if cname in host_alias:
             r = host_alias[cname]
+        elif cname == "Value":
+            r = set(self.cfg.any_result)
         elif cname in self.model.classes:
             r = {self.cfg.canon(cname)}
             for s in self.model.subclasses(cname):
                 r.add(self.cfg.canon(s.name))
-            if cname in ("FuncLambda",) or cname in self.cfg.func_classes:
-                r.add("ValueFunc")
+            if cname == "ValueFunc":
+                r.add("FuncLambda")
         else:
             r = set()
         self._instances[cname] = frozenset(r)
@@ -914,12 +933,14 @@ class Engine:
     def self_types(self, cls):
         if cls.name == "Value":
             return self.cfg.any_result
+        if cls.name in self.cfg.func_classes:
+            return {cls.name}
         return {self.cfg.canon(cls.name)} | {self.cfg.canon(s.name) for s in self.model.subclasses(cls.name)}
 
     def conventional_param(self, f, name):
         """Types of parameters fixed by the repository's calling conventions."""
         if f.name == "execute" and f.cls is not None and (f.cls.name in self.cfg.func_classes or f.cls.name == "ValueFunc"):
-            return {"args": T("Args"), "environment": T("Environment"), "pos": T("SourcePos", "None")}.get(name)
+            return {"args": T("Args"), "environment": T("Environment"), "pos": T("SourcePos")}.get(name)
         if f.name == "evaluate" and name == "environment":
             return T("Environment")
         if name == "lexer":
@@ -933,28 +954,61 @@ class Engine:
             return T("Environment")
         return None
 
-    def class_has_attr(self, cname, attr):
+    def class_has_attr(self, cname, attr, strict=False):
+        """strict: an attribute that only optional setters assign does not count (arbitrary instances)."""
         c = self.model.classes.get(cname)
         if c is None:
             return None
-        key = (cname, attr)
+        key = (cname, attr, strict)
         if key in self._field_cache:
             return self._field_cache[key]
         found = False
-        for k in self.model.mro(c):
+        mro = self.model.mro(c)
+        for idx, k in enumerate(mro):
             if attr in k.methods or attr in k.class_attrs:
                 found = True
                 break
+            only_init = None
             for m in k.methods.values():
                 for n in ast.walk(m.node):
                     if isinstance(n, ast.Attribute) and n.attr == attr and isinstance(n.ctx, ast.Store) \
                             and isinstance(n.value, ast.Name) and n.value.id == "self":
-                        found = True
-                        break
-                if found:
-                    break
-            if found:
+                        only_init = (m.name == "__init__") if only_init in (None, True) else False
+            if only_init is None:
+                continue
+            if not only_init and not strict:
+                found = True
                 break
+            if not only_init:
+                # assigned only by optional setters (never by a constructor that is guaranteed to run):
+                # does any constructor in the chain that DOES run set it?
+                ctor_sets = False
+                for kk in mro:
+                    ki = kk.methods.get("__init__")
+                    if ki is not None and any(isinstance(n, ast.Attribute) and n.attr == attr
+                                              and isinstance(n.ctx, ast.Store) and norm(n.value) == "self"
+                                              for n in ast.walk(ki.node)):
+                        reach = True
+                        for sub in mro[:mro.index(kk)]:
+                            si = sub.methods.get("__init__")
+                            if si is not None and "super().__init__" not in norm(si.node):
+                                reach = False
+                        ctor_sets = ctor_sets or reach
+                if not ctor_sets:
+                    continue
+                found = True
+                break
+            if only_init and idx > 0:
+                # set in an ancestor's constructor: only present if the constructors chain up to it
+                chained = True
+                for sub in mro[:idx]:
+                    si = sub.methods.get("__init__")
+                    if si is not None and "super().__init__" not in norm(si.node):
+                        chained = False
+                if not chained:
+                    continue
+            found = True
+            break
         self._field_cache[key] = found
         return found
 
@@ -998,7 +1052,40 @@ class Engine:
             return STR
         if attr == "pos":
             return T("SourcePos", "None")
+        if t in HOST_PYTYPES and callable(getattr(HOST_PYTYPES[t], attr, None)):
+            return T("method")
+        lit = self.literal_field(t, attr)
+        if lit is not None:
+            return lit
         return TOP
+
+    def literal_field(self, cname, attr):
+        """Type of an instance field all of whose assignments are literals of one host type."""
+        c = self.model.classes.get(cname)
+        if c is None:
+            return None
+        key = ("lit", cname, attr)
+        if key in self._field_cache:
+            return self._field_cache[key]
+        types = set()
+        ok = True
+        for k in self.model.mro(c):
+            for m in k.methods.values():
+                for n in ast.walk(m.node):
+                    if isinstance(n, ast.Assign) and any(norm(t_) == f"self.{attr}" for t_ in n.targets):
+                        v = n.value
+                        if isinstance(v, ast.Constant) and v.value is not None:
+                            types.add(type(v.value).__name__)
+                        elif isinstance(v, ast.Subscript) and isinstance(v.slice, ast.Slice) and norm(v.value) == f"self.{attr}":
+                            pass
+                        else:
+                            ok = False
+                    if isinstance(n, ast.AugAssign) and norm(n.target) == f"self.{attr}":
+                        if not (isinstance(n.op, ast.Add)):
+                            ok = False
+        res = AV(types) if ok and len(types) == 1 and types <= {"str"} else None
+        self._field_cache[key] = res
+        return res
 
     # -------------------------------------------------------------- summaries
     def interp(self, func):
@@ -1155,6 +1242,7 @@ class Engine:
                     if mm:
                         return self.apply_summary(mm, args, recv=T(head))
             recv = ip.ev(f.value, env)
+            ip.event("attr", f, (recv, name), env)
             ip.event("method", e, (recv, name, args), env)
             return self.method_call(ip, e, recv, name, args, kwargs, env)
         ip.ev(f, env)
@@ -1210,7 +1298,7 @@ class Engine:
             "datetime.datetime.now": T("datetime"), "datetime.datetime.strptime": T("datetime"),
             "datetime.datetime.fromtimestamp": T("datetime"), "datetime.datetime": T("datetime"),
             "platform.system": STR, "platform.release": STR, "platform.machine": STR,
-            "random.random": FLOAT, "subprocess.run": T("process"), "pkgutil.get_data": T("bytes", "None"),
+            "random.random": FLOAT, "subprocess.run": T("process"), "pkgutil.get_data": T("bytes"),
             "decimal.Decimal": T("Decimal"), "json.loads": TOP, "shutil.copy2": STR,
             "functools.total_ordering": TOP,
         }
@@ -1227,16 +1315,16 @@ class Engine:
             if name == "execute":
                 return cfg.anyvalue()
             if name in cfg.as_map:
-                return T(cfg.as_map[name])
+                return AV(expand(cfg.as_map[name]))
             if name in cfg.is_true:
                 return BOOL
-            if name == "type":
-                return TOP
+            if name == "split" and args:
+                return AV({"list"}, elem=STR, flags={"fresh", "nonempty"})
             return TOP
         if "?" in recv.types:
             # partially known receiver: only receiver-independent results are kept
             if name in cfg.as_map:
-                return T(cfg.as_map[name])
+                return AV(expand(cfg.as_map[name]))
             if name in cfg.is_true:
                 return BOOL
             if name == "evaluate":
@@ -1255,14 +1343,14 @@ class Engine:
                 return cfg.anyvalue().with_(alias=frozenset({p}) if p else frozenset())
             if name in cfg.getters:
                 al = frozenset({f"{norm(e.func.value)}.get({lit!r})"}) if lit is not None else frozenset()
-                return AV({cfg.getters[name]}, alias=al)
+                return AV(expand(cfg.getters[name]), alias=al)
             if name in cfg.getters_multi:
                 al = frozenset({f"{norm(e.func.value)}.get({lit!r})"}) if lit is not None else frozenset()
                 return AV(cfg.getters_multi[name], alias=al)
             if name in cfg.getas:
                 # may be the argument itself (when it already has the kind) or a converted copy
                 al = frozenset({f"{norm(e.func.value)}.get({lit!r})"}) if lit is not None else frozenset()
-                return AV({cfg.getas[name]}, alias=al)
+                return AV(expand(cfg.getas[name]), alias=al)
             if name in ("hasArg", "isNull"):
                 return BOOL
             if name in ("addArg", "addArgs"):
@@ -1274,9 +1362,9 @@ class Engine:
             if name in cfg.is_true or name in ("isTrue", "isFalse"):
                 return BOOL
             if name in cfg.as_map:
-                target = cfg.as_map[name]
-                al = recv.alias if target in ts else frozenset()
-                return AV({target}, alias=al, flags=frozenset() if al else frozenset({"fresh"}))
+                target = expand(cfg.as_map[name])
+                al = recv.alias if (target & ts) else frozenset()
+                return AV(target, alias=al, flags=frozenset() if al else frozenset({"fresh"}))
             if name == "type":
                 return STR
             if name == "withInfo":
@@ -1287,7 +1375,7 @@ class Engine:
                 return cfg.anyvalue()
         if name == "evaluate":
             return cfg.anyvalue(control=True)
-        if name == "execute" and (ts & {"ValueFunc"}):
+        if name == "execute" and (ts & {"ValueFunc", "FuncLambda"}):
             return cfg.anyvalue()
         # --- host receivers
         if ts <= {"str"}:
@@ -1297,7 +1385,9 @@ class Engine:
                 return INT
             if name in STR_METHODS_BOOL:
                 return BOOL
-            if name in ("split", "rsplit", "splitlines"):
+            if name in ("split", "rsplit"):
+                return AV({"list"}, elem=STR, flags={"fresh", "nonempty"} if args else {"fresh"})
+            if name == "splitlines":
                 return AV({"list"}, elem=STR, flags={"fresh"})
             if name == "encode":
                 return T("bytes")
